@@ -219,7 +219,7 @@ class PropertyRun:
         self.crashes = []
         self.notes = []
         self.repo = Repo(os.environ.get("VERIF_REPO", "/repo"))
-        self.replay_dir = os.path.join(VERIF, "replays", pid)
+        self.replay_dir = os.path.join(os.environ.get("VERIF_REPLAY_DIR", os.path.join(VERIF, "replays")), pid)
         self.baseline = load_baseline()
 
     # ------------------------------------------------------------------ proofs
@@ -316,7 +316,7 @@ class PropertyRun:
                 self.undecided.append(f"{rep.label}: satisfiability of the precondition: {rep.vacuity.get('requires_sat')}")
             failed_keys = set()
             searched = {}
-            for lob in rep.obligations:
+            for lob in sorted(rep.obligations, key=lambda o: 0 if o.result["status"] == "failed" else 1):
                 st = lob.result["status"]
                 if st not in ("undecided", "failed"):
                     continue
@@ -324,11 +324,19 @@ class PropertyRun:
                 if k in failed_keys:
                     continue
                 failed_keys.add(k)
+                if st == "undecided" and any(v.get("function") == rep.label for v in self.violations):
+                    # a violation of this function's contract has already been reported: do not spend the large retry budget on its other
+                    # open obligations (they are listed, not judged)
+                    self.notes.append(f"{lob.label}: not discharged either (not retried: {rep.label} already has a reported violation)")
+                    continue
+                n_before = len(self.violations)
                 full, ob = self.materialize(rep, lob)
                 if ob is None:
                     self.crashes.append(f"{lob.label}: obligation could not be regenerated in the main process")
                     continue
                 self._judge(full, ob, k, st, findings, RP, searched)
+                for v in self.violations[n_before:]:
+                    v["function"] = rep.label
         # bounded stand-ins
         for b in self.bounded:
             for e in b.errors:
@@ -483,8 +491,10 @@ class PropertyRun:
             "wall_s": round(time.time() - self.t0, 2),
             "violations": len(self.violations),
         }
-        os.makedirs(os.path.join(VERIF, "evidence"), exist_ok=True)
-        path = os.path.join(VERIF, "evidence", f"{self.pid}.json")
+        # (VERIF_EVIDENCE_DIR is only for runs against scratch trees with seeded changes, so that they do not overwrite the real evidence)
+        evdir = os.environ.get("VERIF_EVIDENCE_DIR", os.path.join(VERIF, "evidence"))
+        os.makedirs(evdir, exist_ok=True)
+        path = os.path.join(evdir, f"{self.pid}.json")
         with open(path, "w") as f:
             json.dump(jsonable(ev), f, indent=1)
         return path
